@@ -14,6 +14,7 @@ histories by the correspondence harness through the abstraction function α).  H
 -/
 import JaxleyVerif.Lemmas.OpsWF
 import JaxleyVerif.Lemmas.OpsFrame
+import JaxleyVerif.Lemmas.OpsNoDangling
 
 namespace JaxleyVerif.Props.C19
 open JaxleyVerif.Model.Ops
@@ -276,5 +277,236 @@ theorem insert_flags (m : Mod) (rows : List Nat) (c : ChanDesc) (i : Nat) (hi : 
   rw [getD_find_writeFlag _ _ _ _ _ _ hi]
   unfold flagAt getFlag
   cases rows.contains i <;> simp
+
+/-! ### 5. no dangling references (after the fix of N13) -/
+
+/-- the side condition of `NoDangling` preservation: the descriptor handed to `delete_channel` is compatible with the registry
+(`Model.Ops.delOkB`: a registered channel of the same name IS this descriptor); every other operation is unconditional -/
+def Op.delOkB (m : Mod) : Op → Bool
+  | .deleteChannel _ c => JaxleyVerif.Model.Ops.delOkB m c
+  | _ => true
+
+/-- the channel descriptors an operation mentions -/
+def Op.descs : Op → List ChanDesc
+  | .insert _ c => [c]
+  | .deleteChannel _ c => [c]
+  | _ => []
+
+theorem noDangling_init (n : Nat) (geom : List (String × Nat)) : NoDangling (init n geom) :=
+  ⟨(by intro r hr; cases hr), (by intro p hp; cases hp)⟩
+
+theorem curInv_init (n : Nat) (geom : List (String × Nat)) : CurInv (init n geom) := by
+  intro c hc; cases hc
+
+theorem regs_setNode {m m' : Mod} {rows : List Nat} {k : String} {v : Nat} (heq : setNode m rows k v = .ok m') :
+    m'.chans = m.chans ∧ m'.currents = m.currents ∧ m'.syns = m.syns := by
+  unfold setNode at heq
+  split at heq
+  · cases heq
+  · cases heq; exact ⟨rfl, rfl, rfl⟩
+
+theorem regs_addToGroup (m : Mod) (rows : List Nat) (name : String) :
+    (addToGroup m rows name).chans = m.chans ∧ (addToGroup m rows name).currents = m.currents ∧
+      (addToGroup m rows name).syns = m.syns := by
+  unfold addToGroup
+  split <;> exact ⟨rfl, rfl, rfl⟩
+
+/-- `NoDangling` together with `CurInv` (the current of every registered channel is listed) is preserved by EVERY operation;
+only `delete_channel` needs the side condition -/
+theorem noDangling_curInv_step (m : Mod) (o : Op) (h : NoDangling m) (hc : CurInv m) (hd : o.delOkB m = true) :
+    NoDangling (step m o) ∧ CurInv (step m o) := by
+  cases o with
+  | insert rows c => exact ⟨noDangling_insert rows c h, curInv_insert rows c hc⟩
+  | deleteChannel rows c =>
+    simp only [step, apply]
+    cases hres : deleteChannel m rows c with
+    | error e => exact ⟨h, hc⟩
+    | ok m' => exact ⟨noDangling_deleteChannel h hd hres, curInv_deleteChannel hc hres⟩
+  | setNode rows k v =>
+    simp only [step, apply]
+    cases hres : setNode m rows k v with
+    | error e => exact ⟨h, hc⟩
+    | ok m' =>
+      obtain ⟨h1, h2, h3⟩ := regs_setNode hres
+      obtain ⟨f1, f2⟩ := frame_setNode hres
+      refine ⟨noDangling_of_same h h1 h2 h3 (fun r hr => f1 ▸ hr) (fun p hp => ⟨p, f2 ▸ hp, rfl⟩), ?_⟩
+      intro d hd'
+      show d.current ∈ m'.currents
+      rw [h2]; exact hc d (h1 ▸ hd')
+  | addToGroup rows name =>
+    show NoDangling (addToGroup m rows name) ∧ CurInv (addToGroup m rows name)
+    obtain ⟨h1, h2, h3⟩ := regs_addToGroup m rows name
+    obtain ⟨f1, f2⟩ := frame_addToGroup m rows name
+    refine ⟨noDangling_of_same h h1 h2 h3 (fun r hr => f1 ▸ hr) (fun p hp => ⟨p, f2 ▸ hp, rfl⟩), ?_⟩
+    intro d hd'
+    rw [h2]; exact hc d (h1 ▸ hd')
+  | record rows es st =>
+    simp only [step, apply]
+    cases hres : record m rows es st with
+    | error e => exact ⟨h, hc⟩
+    | ok m' =>
+      obtain ⟨g1, g2, g3⟩ := noDangling_record h hc hres
+      refine ⟨g1, ?_⟩
+      intro d hd'
+      show d.current ∈ m'.currents
+      rw [g3]; exact hc d (g2 ▸ hd')
+  | deleteRecordings =>
+    exact ⟨noDangling_of_same h rfl rfl rfl (fun r hr => by cases hr) (fun p hp => ⟨p, hp, rfl⟩), hc⟩
+  | externalInput rows es key data =>
+    simp only [step, apply]
+    cases hres : externalInput m rows es key data with
+    | error e => exact ⟨h, hc⟩
+    | ok m' =>
+      obtain ⟨g1, g2, g3⟩ := noDangling_externalInput h hc hres
+      refine ⟨g1, ?_⟩
+      intro d hd'
+      show d.current ∈ m'.currents
+      rw [g3]; exact hc d (g2 ▸ hd')
+  | deleteExternal rows es key => exact ⟨noDangling_deleteExternal rows es key h, hc⟩
+  | makeTrainable key groups =>
+    exact ⟨noDangling_of_same h rfl rfl rfl (fun r hr => hr) (fun p hp => ⟨p, hp, rfl⟩), hc⟩
+  | deleteTrainables =>
+    exact ⟨noDangling_of_same h rfl rfl rfl (fun r hr => hr) (fun p hp => ⟨p, hp, rfl⟩), hc⟩
+  | connect pre post s => exact ⟨noDangling_connect pre post s h, hc⟩
+
+/-- (C19) **`NoDangling` is preserved by every operation of the alphabet** (given `CurInv`, which every reachable state has) -/
+theorem noDangling_step (m : Mod) (o : Op) (h : NoDangling m) (hc : CurInv m) (hd : o.delOkB m = true) :
+    NoDangling (step m o) := (noDangling_curInv_step m o h hc hd).1
+
+theorem curInv_step (m : Mod) (o : Op) (h : NoDangling m) (hc : CurInv m) (hd : o.delOkB m = true) :
+    CurInv (step m o) := (noDangling_curInv_step m o h hc hd).2
+
+/-- the registry only ever contains descriptors that were inserted -/
+theorem chans_sub_step (m : Mod) (o : Op) : ∀ d ∈ (step m o).chans, d ∈ m.chans ∨ d ∈ o.descs := by
+  intro d hd
+  cases o with
+  | insert rows c =>
+    have hd' : d ∈ (if m.chans.any (·.name == c.name) then m.chans else m.chans ++ [c]) := hd
+    split at hd'
+    · exact Or.inl hd'
+    · rcases List.mem_append.mp hd' with h1 | h1
+      · exact Or.inl h1
+      · exact Or.inr h1
+  | deleteChannel rows c =>
+    simp only [step, apply] at hd
+    cases hres : deleteChannel m rows c with
+    | error e => rw [hres] at hd; exact Or.inl hd
+    | ok m' =>
+      rw [hres] at hd
+      rcases deleteChannel_cases hres with ⟨h1, -⟩ | ⟨h1, -⟩
+      · exact Or.inl (h1 ▸ hd)
+      · rw [h1] at hd; exact Or.inl (List.mem_filter.mp hd).1
+  | setNode rows k v =>
+    simp only [step, apply] at hd
+    cases hres : setNode m rows k v with
+    | error e => rw [hres] at hd; exact Or.inl hd
+    | ok m' => rw [hres] at hd; exact Or.inl ((regs_setNode hres).1 ▸ hd)
+  | addToGroup rows name => exact Or.inl ((regs_addToGroup m rows name).1 ▸ hd)
+  | record rows es st =>
+    simp only [step, apply] at hd
+    cases hres : record m rows es st with
+    | error e => rw [hres] at hd; exact Or.inl hd
+    | ok m' =>
+      rw [hres] at hd
+      unfold record at hres
+      split at hres
+      · cases hres; exact Or.inl hd
+      · split at hres
+        · cases hres; exact Or.inl hd
+        · cases hres
+  | deleteRecordings => exact Or.inl hd
+  | externalInput rows es key data =>
+    simp only [step, apply] at hd
+    cases hres : externalInput m rows es key data with
+    | error e => rw [hres] at hd; exact Or.inl hd
+    | ok m' =>
+      rw [hres] at hd
+      unfold externalInput at hres
+      simp only at hres
+      generalize (if (nodeStatesIn m rows).contains key then rows else es) = inds at hres
+      generalize (if data.length == inds.length then data else List.replicate inds.length (data.headD [])) = dd at hres
+      split at hres
+      · cases hres
+      · split at hres
+        · cases hres
+        · split at hres <;> (cases hres; exact Or.inl hd)
+  | deleteExternal rows es key => exact Or.inl hd
+  | makeTrainable key groups => exact Or.inl hd
+  | deleteTrainables => exact Or.inl hd
+  | connect pre post s => exact Or.inl hd
+
+/-- generalised over the start state and a catalogue `D` of pairwise compatible descriptors -/
+theorem noDangling_foldl (D : List ChanDesc) (hD : ∀ c ∈ D, ∀ d ∈ D, chanCompatB c d = true) (ops : List Op)
+    (hops : ∀ o ∈ ops, ∀ c ∈ o.descs, c ∈ D) (m : Mod) (h : NoDangling m) (hc : CurInv m) (hreg : ∀ d ∈ m.chans, d ∈ D) :
+    NoDangling (ops.foldl step m) ∧ CurInv (ops.foldl step m) := by
+  induction ops generalizing m with
+  | nil => exact ⟨h, hc⟩
+  | cons o os ih =>
+    rw [List.foldl_cons]
+    have hok : o.delOkB m = true := by
+      cases o with
+      | deleteChannel rows c =>
+        show JaxleyVerif.Model.Ops.delOkB m c = true
+        unfold JaxleyVerif.Model.Ops.delOkB
+        rw [List.all_eq_true]
+        intro d hd
+        exact hD c (hops _ List.mem_cons_self c (by simp [Op.descs])) d (hreg d hd)
+      | _ => rfl
+    obtain ⟨h1, h2⟩ := noDangling_curInv_step m o h hc hok
+    refine ih (fun o' ho' => hops o' (List.mem_cons_of_mem _ ho')) (step m o) h1 h2 ?_
+    intro d hd
+    rcases chans_sub_step m o d hd with h3 | h3
+    · exact hreg d h3
+    · exact hops o List.mem_cons_self d h3
+
+/-- (C19) **no dangling references after any editing history**: if the channel descriptors used by the history are pairwise
+compatible (one descriptor per channel name), then
+every recording and every external input of the final module refers to a state that exists in it -/
+theorem noDangling_reachable (n : Nat) (geom : List (String × Nat)) (ops : List Op)
+    (hcat : ∀ c ∈ ops.flatMap Op.descs, ∀ d ∈ ops.flatMap Op.descs, chanCompatB c d = true) :
+    NoDangling (ops.foldl step (init n geom)) :=
+  (noDangling_foldl (ops.flatMap Op.descs) hcat ops
+    (fun o ho c hc => List.mem_flatMap.mpr ⟨o, ho, hc⟩) (init n geom) (noDangling_init n geom) (curInv_init n geom)
+    (by intro d hd; cases hd)).1
+
+/-! #### the N13 witness, the corner that needs the side condition, and the corner the refined fix removed -/
+
+def exHH : ChanDesc :=
+  { name := "HH", params := [("HH_gNa", 1)], states := [("HH_m", 2), ("HH_h", 3), ("HH_n", 4)], current := "i_HH" }
+
+/-- the N13 history: insert HH on both rows; record `HH_n`; clamp `HH_m`; delete the channel everywhere -/
+def exHist : List Op :=
+  [.insert [0, 1] exHH, .record [0] [] "HH_n", .externalInput [0] [] "HH_m" [[7]], .deleteChannel [0, 1] exHH]
+
+/-- before the deletion the recording and the clamp are there … -/
+example : ((exHist.take 3).foldl step (init 2 [("radius", 1)])).recs = [(0, "HH_n")] ∧
+    ((exHist.take 3).foldl step (init 2 [("radius", 1)])).ext = [("HH_m", [(0, [7])])] := by decide
+
+/-- … and they go with the channel (N13 fixed): nothing is left behind -/
+example : (exHist.foldl step (init 2 [("radius", 1)])).recs = [] ∧ (exHist.foldl step (init 2 [("radius", 1)])).ext = [] ∧
+    (exHist.foldl step (init 2 [("radius", 1)])).chans = [] := by decide
+
+example : NoDangling (exHist.foldl step (init 2 [("radius", 1)])) :=
+  noDangling_reachable 2 [("radius", 1)] exHist (by decide)
+
+/-- the corner that remains (why `delOkB` asks for the registered descriptor): deleting "HH" with a descriptor that lists no states removes
+the channel but keeps the recording of `HH_n`, which then refers to no state of the module -/
+example :
+    let fin := ([.insert [0, 1] exHH, .record [0] [] "HH_n",
+      .deleteChannel [0, 1] { exHH with states := [] }] : List Op).foldl step (init 2 [])
+    fin.recs = [(0, "HH_n")] ∧ "HH_n" ∉ nodeStates fin ∧ "HH_n" ∉ edgeStates fin := by decide
+
+/-- the former corner 2, now handled by the refined fix: channel `A` has a STATE `x`, channel `B` a PARAMETER `x`; deleting `A`
+keeps the shared column `x` but removes the recording of `x` (no remaining channel has a state of that name) -/
+def exA : ChanDesc := { name := "A", params := [], states := [("x", 0)], current := "i_A" }
+def exB : ChanDesc := { name := "B", params := [("x", 5)], states := [], current := "i_B" }
+def exHistAB : List Op := [.insert [0] exA, .insert [0] exB, .record [0] [] "x", .deleteChannel [0] exA]
+
+example : ((exHistAB.take 3).foldl step (init 1 [])).recs = [(0, "x")] ∧
+    (exHistAB.foldl step (init 1 [])).recs = [] ∧
+    ((exHistAB.foldl step (init 1 [])).cols.map (·.1)).contains "x" = true ∧
+    chanCompatB exA exB = true := by decide
+
+example : NoDangling (exHistAB.foldl step (init 1 [])) := noDangling_reachable 1 [] exHistAB (by decide)
 
 end JaxleyVerif.Props.C19
